@@ -108,7 +108,7 @@ def add_atom(g, a):
 
 def shared_cdr_chain(g, root):
     """structural feature of a recipe graph: some pair P has as cdr a pair A referenced more than once whose cdr is
-       again a pair referenced more than once (two consecutive list cells that both need a datum label)"""
+       again a pair or vector referenced more than once (a labelled list cell whose tail needs a label too)"""
     indeg = {}
     seen, stack = set(), [root]
     indeg[root] = 1
@@ -120,12 +120,15 @@ def shared_cdr_chain(g, root):
         for c in g.n[i - 1][1]:
             indeg[c] = indeg.get(c, 0) + 1
             stack.append(c)
-    def sp(i):
-        return g.n[i - 1][0] == "pair" and indeg.get(i, 0) > 1
+    empties = sum(indeg.get(i, 0) for i in seen if g.n[i - 1][0] == "vec" and not g.n[i - 1][1])     # chibi has ONE empty vector object
+
+    def sh(i):
+        k, c, _ = g.n[i - 1]
+        return (k in ("pair", "vec") and indeg.get(i, 0) > 1) or (k == "vec" and not c and empties > 1)
     for i in seen:
         if g.n[i - 1][0] == "pair":
             a = g.n[i - 1][1][1]
-            if sp(a) and sp(g.n[a - 1][1][1]):
+            if g.n[a - 1][0] == "pair" and sh(a) and sh(g.n[a - 1][1][1]):
                 return True
     return False
 
@@ -659,29 +662,33 @@ def run_driver(build, sc, mode, lines, tag, timeout=600):
         rc, out, err = p.returncode, p.stdout.decode(errors="replace"), p.stderr.decode(errors="replace")
     except Exception as ex:       # timeout: the partial output is what we have
         rc, out, err = -9, (getattr(ex, "stdout", b"") or b"").decode(errors="replace"), "timeout"
-    evs = []
-    for line in out.splitlines():
-        line = line.strip()
-        if line.startswith("{"):
-            try:
-                evs.append(json.loads(line))
-            except ValueError:
-                evs.append({"e": "Garbled"})
-    return rc, evs, err
+    lines = [l.strip() for l in out.splitlines()]
+    return rc, [l for l in lines if l.startswith("{") and l.endswith("}")], err
 
 
-def case_events(evs):
-    """group driver events by case id, in order"""
+_ID = re.compile(r'"id":(\d+)')
+
+
+def etype(line):
+    return line[6:line.index('"', 6)]        # lines start with {"e":"
+
+
+def case_events(lines):
+    """group the driver's raw ndjson lines by case id, in order (they are parsed only where python has to add tokens)"""
     by = {}
     info = None
-    for e in evs:
-        if e["e"] == "Info":
-            info = e
+    for l in lines:
+        if l.startswith('{"e":"Info"'):
+            info = json.loads(l)
             continue
-        if e["e"] == "Garbled":
-            continue
-        by.setdefault(e.get("id"), []).append(e)
+        m = _ID.search(l[:40])
+        if m:
+            by.setdefault(int(m.group(1)), []).append(l)
     return by, info
+
+
+def parsed(by, cid):
+    return [json.loads(l) for l in by.get(cid, [])]
 
 
 def make_trace(path, cases, by, kind):
@@ -689,19 +696,22 @@ def make_trace(path, cases, by, kind):
     n = 0
     with open(path, "w") as f:
         for c in cases:
-            evs = by.get(c["id"], [])
             if kind == "rt":
-                f.write(json.dumps({"e": "Recipe", "id": c["id"], "g": c["g"]}, separators=(",", ":")) + "\n")
-            for e in evs:
-                if e["e"] == "Write":
-                    e = dict(e)
+                f.write('{"e":"Recipe","id":%d,"g":%s}\n' % (c["id"], json.dumps(c["g"], separators=(",", ":"))))
+            for l in by.get(c["id"], []):
+                if isinstance(l, dict):
+                    l = json.dumps(l, separators=(",", ":"))
+                if l.startswith('{"e":"Write"'):
+                    e = json.loads(l)
                     e["nt"] = 0 if c.get("tr", True) else 1
                     e["tok"] = lex(e["t"]) if e["nt"] == 0 else []
-                elif e["e"] == "Text":
-                    e = dict(e)
+                    l = json.dumps(e, separators=(",", ":"))
+                elif l.startswith('{"e":"Text"'):
+                    e = json.loads(l)
                     e["tok"] = lex(e["t"])
                     e["j"] = c.get("judge", "total")
-                f.write(json.dumps(e, separators=(",", ":")) + "\n")
+                    l = json.dumps(e, separators=(",", ":"))
+                f.write(l + "\n")
                 n += 1
         f.write('{"e":"Fin"}\n')
     return n
@@ -735,7 +745,7 @@ def shard(cases, by, maxbytes=2_500_000):
     k = max(1, len(cases) // 40)
     cases = [c for j in range(k) for c in cases[j::k]]          # interleave the classes over the shards
     for c in cases:
-        s = sum(len(e.get("t", ())) * 4 + 60 * len(e.get("g", {}).get("n", ())) + 120 for e in by.get(c["id"], [])) + 200
+        s = sum(len(l) for l in by.get(c["id"], [])) + 200
         if cur and size + s > maxbytes:
             groups.append(cur)
             cur, size = [], 0
@@ -768,7 +778,7 @@ def campaign(chk, sc, build, cases, kind, label, jobs_drv=8, jobs_tlc=6):
             raise Broken("write-simple is no longer the native writer: extend the writer masks")
         by.update(b)
         # a crashed / hung driver leaves cases without events: re-run the remaining ones one by one later
-        missing = [c for c in ch if c["id"] not in b or b[c["id"]][-1]["e"] != "End"]
+        missing = [c for c in ch if c["id"] not in b or not b[c["id"]][-1].startswith('{"e":"End"')]
         if missing:
             first = missing[0]
             # everything after the first unfinished case was never attempted: run it in a fresh process
@@ -779,7 +789,7 @@ def campaign(chk, sc, build, cases, kind, label, jobs_drv=8, jobs_tlc=6):
                 b2, _ = case_events(evs2)
                 by.update(b2)
             if first["id"] not in by:
-                by[first["id"]] = [{"e": "Begin", "id": first["id"]}]
+                by[first["id"]] = ['{"e":"Begin","id":%d}' % first["id"]]
             chk.cov.setdefault("driver_incomplete_cases", []).append({"id": first["id"], "cls": first["cls"], "rc": rc, "stderr": err[-300:]})
     # --- TLC
     groups = shard(cases, by)
@@ -793,8 +803,8 @@ def campaign(chk, sc, build, cases, kind, label, jobs_drv=8, jobs_tlc=6):
     rejs = []
     tot = [0, 0, 0, 0, 0, 0]
     t0 = time.time()
-    details, textcls = {}, {}
-    chk.c08_details, chk.c08_textcls = details, textcls
+    details = chk.__dict__.setdefault("c08_details", {})
+    textcls = chk.__dict__.setdefault("c08_textcls", {})
     for grp, path, r, rej, summ, consumed in vlib.parallel(val, list(enumerate(groups)), jobs=jobs_tlc):
         details.update(r.details)
         textcls.update(r.textcls)
@@ -852,7 +862,7 @@ def report_rejections(chk, sc, build, cases, rejs, by, kind):
             if c["id"] not in b:       # crashed: isolate by running alone
                 rc1, evs1, err1 = run_driver(build, sc, kind, [c["recipe"] if kind == "rt" else c["textline"]], "confirm1_%d" % c["id"], timeout=300)
                 b1, _ = case_events(evs1)
-                b[c["id"]] = b1.get(c["id"], [{"e": "Begin", "id": c["id"]}])
+                b[c["id"]] = b1.get(c["id"], ['{"e":"Begin","id":%d}' % c["id"]])
         path = sc.file("confirm_%s.ndjson" % kind)
         make_trace(path, sub, b, kind)
         r, rej2, summ, consumed = validate(sc, path, timeout=900)
@@ -869,13 +879,101 @@ def report_rejections(chk, sc, build, cases, rejs, by, kind):
             confirmed += 1
             det = getattr(chk, "c08_details", {}).get((cid, first[2], first[3]))
             content = {"key": key, "kind": kind, "case": c, "reason": first[1], "writer": first[2], "reader": first[3],
-                       "cases_with_this_key": len(set(t[0] for t in ls)), "differing_nodes_of": det, "events": b[cid],
-                       "texts": {e["w"]: "".join(chr(x) for x in e["t"])[:2000] for e in b[cid] if e["e"] == "Write"},
+                       "cases_with_this_key": len(set(t[0] for t in ls)), "differing_nodes_of": det, "events": parsed(b, cid),
+                       "texts": {e["w"]: "".join(chr(x) for x in e["t"])[:2000] for e in parsed(b, cid) if e["e"] == "Write"},
                        "how": "./check C08 --replay <this file> re-runs the case on a fresh build and lets TLC judge it"}
             chk.report(key, "%s (%d case(s)); first: case %d writer=%s reader=%s %s%s" % (
                 first[1], len(set(t[0] for t in ls)), cid, first[2], first[3], (c.get("note") or "")[:60],
                 (" [%d of %d nodes differ]" % det) if det else ""), "c08_%s.json" % re.sub(r"[^A-Za-z0-9_.-]", "_", key)[:100], content)
     return keys, confirmed
+
+
+def binding_selftest(chk, sc, cases, by, rejected):
+    """soundness rule 5: corrupt recorded fields of an accepted case and require TLC to reject each corruption"""
+    import copy
+    base = None
+    for c in cases:
+        if c["cls"].startswith("tree-depth") and c["id"] not in rejected and 6 <= len(c["g"]["n"]) <= 40:
+            evs = parsed(by, c["id"])
+            if any(e["e"] == "Read" and any(nd["k"] in ("int", "sym", "char") for nd in e["g"]["n"]) for e in evs):
+                base = c
+                break
+    if base is None:
+        raise Broken("binding self-test: no accepted tree case to corrupt")
+    evs0 = parsed(by, base["id"])
+    variants = []
+
+    def variant(name, expect, f):
+        c = dict(base)
+        c["id"] = 900000 + len(variants) + 1
+        evs = copy.deepcopy(evs0)
+        for e in evs:
+            e["id"] = c["id"]
+        evs = f(evs)
+        variants.append((c, evs, name, expect))
+
+    def corrupt_read(evs):
+        e = [e for e in evs if e["e"] == "Read"][1]
+        nd = [nd for nd in e["g"]["n"] if nd["k"] in ("int", "sym", "char")][0]
+        nd["p"] = nd["p"][:-1] + [nd["p"][-1] + 1] if nd["p"] and nd["k"] != "int" else ([0, 7] if nd["p"] != [0, 7] else [0, 8])
+        return evs
+
+    def corrupt_sharing(evs):          # a reader that returns an extra reference to the same node: not Iso for write-shared
+        e = [e for e in evs if e["e"] == "Read" and e["w"] == "shared"][0]
+        pairs = [i for i, nd in enumerate(e["g"]["n"]) if nd["k"] in ("pair", "vec") and nd["c"]]
+        tgt = pairs[0]
+        e["g"]["n"][tgt]["c"][0] = tgt + 1          # car := the node itself
+        return evs
+
+    def drop_end(evs):
+        return [e for e in evs if e["e"] != "End"]
+
+    def corrupt_text(evs):
+        e = [e for e in evs if e["e"] == "Write"][0]
+        e["t"] = e["t"][:-1]
+        return evs
+
+    def corrupt_rest(evs):
+        [e for e in evs if e["e"] == "Read"][0]["rest"] = 0
+        return evs
+
+    def corrupt_datum(evs):
+        e = [e for e in evs if e["e"] == "Datum"][0]
+        nd = [nd for nd in e["g"]["n"] if nd["k"] in ("int", "sym", "char")][0]
+        nd["k"], nd["p"] = "null", []
+        return evs
+
+    def read_error(evs):
+        e = [e for e in evs if e["e"] == "Read"][0]
+        e["ok"], e["g"] = 0, {"r": 0, "n": []}
+        return evs
+    variant("value changed by a reader", {"not-equal", "not-iso", "readers-differ-datum"}, corrupt_read)
+    variant("sharing changed by a reader", {"not-iso", "read-malformed", "not-equal"}, corrupt_sharing)
+    variant("End event removed", {"no-end"}, drop_end)
+    variant("text truncated", {"text-syntax", "text-lex", "text-not-equal", "text-not-iso"}, corrupt_text)
+    variant("reader left input", {"text-not-consumed"}, corrupt_rest)
+    variant("datum differs from recipe", {"build-mismatch", "not-equal", "not-iso", "text-not-equal", "text-not-iso"}, corrupt_datum)
+    variant("reader raised", {"read-error", "readers-differ-outcome"}, read_error)
+    vcases = [v[0] for v in variants] + [dict(base, id=900099)]
+    vby = {v[0]["id"]: v[1] for v in variants}
+    ok_evs = copy.deepcopy(evs0)
+    for e in ok_evs:
+        e["id"] = 900099
+    vby[900099] = ok_evs
+    path = sc.file("selftest.ndjson")
+    make_trace(path, vcases, vby, "rt")
+    r, rej, summ, consumed = validate(sc, path, timeout=600)
+    if not consumed:
+        raise Broken("binding self-test: trace not consumed: %s" % r.out[-1500:])
+    res = {}
+    for c, evs, name, expect in variants:
+        got = set(t[1] for t in rej if t[0] == c["id"])
+        res[name] = sorted(got)
+        if not (got & expect):
+            raise Broken("binding self-test: corruption '%s' was not rejected as expected (got %s)" % (name, sorted(got)))
+    if any(t[0] == 900099 for t in rej):
+        raise Broken("binding self-test: the uncorrupted copy was rejected: %s" % [t for t in rej if t[0] == 900099])
+    chk.cov["binding_selftest"] = res
 
 
 # ------------------------------------------------------------------------------------------------
@@ -1028,17 +1126,55 @@ def run():
         cases = cs.cases
         timing = chk.cov.setdefault("timing_s", {})
         timing["generate"] = round(time.time() - chk.t0, 1)
-        rejs, tot, by = campaign(chk, sc, build, cases, "rt", "rt", jobs_drv=8, jobs_tlc=6 if not thorough else 10)
+        # batches bound the amount of recorded data held at a time (thorough: > 1 GB of node tables)
+        batches, cur, size = [], [], 0
+        for c in cases:
+            w = len(c["g"]["n"]) * (3 + 6 * bin(c["mask"]).count("1"))
+            if cur and size + w > 2500000:
+                batches.append(cur)
+                cur, size = [], 0
+            cur.append(c)
+            size += w
+        if cur:
+            batches.append(cur)
+        rejs, tot, keep, written = [], [0] * 6, {}, []
+        selftested = False
+        for bi, batch in enumerate(batches):
+            r1, t1, by = campaign(chk, sc, build, batch, "rt", "rt%d" % bi, jobs_drv=8, jobs_tlc=6 if not thorough else 10)
+            rejs += r1
+            tot = [a_ + b_ for a_, b_ in zip(tot, t1)]
+            bad = set(t[0] for t in r1)
+            for c in batch:
+                if c["id"] in bad:
+                    continue
+                if c["cls"] in ("graph-ring", "tree-depth4", "sym:bar-or-backslash", "cpx-exact", "tlc-graph:cyclic-shared") and len(chk.cov["samples"]) < 5:
+                    ws = [e for e in parsed(by, c["id"]) if e["e"] == "Write"]
+                    if ws and not any(s_.get("class") == c["cls"] for s_ in chk.cov["samples"]):
+                        chk.sample({"class": c["cls"], "datum": c["g"] if len(c["g"]["n"]) < 12 else "(%d nodes)" % len(c["g"]["n"]),
+                                    "texts": {e["w"]: "".join(chr(x) for x in e["t"])[:200] for e in ws}}, limit=5)
+                if len(written) < 40000 and len(c["g"]["n"]) <= 60:
+                    for l in by.get(c["id"], []):
+                        if l.startswith('{"e":"Write"'):
+                            e = json.loads(l)
+                            if e.get("ok") == 1 and 0 < len(e["t"]) <= 300:
+                                written.append(e["t"])
+            if not selftested and any(c["cls"].startswith("tree-depth") for c in batch):
+                binding_selftest(chk, sc, batch, by, bad)
+                selftested = True
+            del by
+        if not selftested:
+            raise Broken("binding self-test did not run")
         timing["roundtrip_campaign"] = round(time.time() - chk.t0, 1)
-        keys, confirmed = report_rejections(chk, sc, build, cases, rejs, by, "rt")
+        keys, confirmed = report_rejections(chk, sc, build, cases, rejs, None, "rt")
         timing["roundtrip_confirm"] = round(time.time() - chk.t0, 1)
         rejected_cases = set(t[0] for t in rejs)
         chk.cov["roundtrip_cases"] = len(cases)
+        chk.cov["roundtrip_batches"] = len(batches)
         chk.cov["roundtrip_cases_rejected"] = len(rejected_cases)
         chk.cov["writes_validated"] = tot[1]
         chk.cov["texts_read_by_abstract_reader"] = tot[5]
         chk.cov["reads_validated"] = tot[2]
-        chk.cov["rejection_keys"] = {k: len(v) for k, v in sorted(keys.items())}
+        chk.cov["rejection_keys"] = {k: len(set(t[0] for t in v)) for k, v in sorted(keys.items())}
         classes = {}
         for c in cases:
             classes[c["cls"].split(":")[0]] = classes.get(c["cls"].split(":")[0], 0) + 1
@@ -1049,14 +1185,7 @@ def run():
         chk.cov["char_data_round_tripped"] = nchar
         if tot[2] < 4 * len(cases) or tot[1] < 2 * len(cases) or nflo < 60000 or tot[5] < len(cases):
             raise Broken("vacuous run: %s reads / %s writes for %d cases, %d flonums" % (tot[2], tot[1], len(cases), nflo))
-        for c in cases:
-            if c["cls"] in ("graph-ring", "tree-depth4", "sym:bar-or-backslash", "cpx-exact") and c["id"] not in rejected_cases:
-                ws = [e for e in by[c["id"]] if e["e"] == "Write"]
-                if ws:
-                    chk.sample({"class": c["cls"], "datum": c["g"] if len(c["g"]["n"]) < 12 else "(%d nodes)" % len(c["g"]["n"]),
-                                "texts": {e["w"]: "".join(chr(x) for x in e["t"])[:200] for e in ws}}, limit=5)
         # ---------------- texts fed to both readers
-        written = [e["t"] for c in cases for e in by.get(c["id"], []) if e["e"] == "Write" and e.get("ok") == 1 and c["id"] not in rejected_cases]
         tcases = []
         for cls, judge, t in gen_texts(rng, written, thorough):
             if not all(scalar(x) for x in t):
@@ -1068,12 +1197,24 @@ def run():
         timing["text_campaign"] = round(time.time() - chk.t0, 1)
         tkeys, tconf = report_rejections(chk, sc, build, tcases, trejs, tby, "txt")
         timing["text_confirm"] = round(time.time() - chk.t0, 1)
+        # informational: outcome classes (as determined by TLC) on texts whose outcome R7RS leaves open
+        tmap = {c["id"]: c for c in tcases}
+        drift = [(tmap[i]["cls"], tmap[i]["note"], v.get("native"), v.get("ss")) for i, v in sorted(chk.c08_textcls.items())
+                 if v.get("j") == "total" and v.get("native") != v.get("ss")]
+        chk.cov["unjudged_texts_where_readers_differ"] = {"count": len(drift), "examples": [
+            {"class": a, "text": b, "native": c_, "ss": d} for a, b, c_, d in drift[:25]]}
+        judged = {}
+        for v in chk.c08_textcls.values():
+            judged[v.get("j")] = judged.get(v.get("j"), 0) + 1
+        chk.cov["text_judgements"] = judged
+        if judged.get("agree", 0) < 500 or judged.get("error", 0) < 100:
+            raise Broken("vacuous text run: judgements %s" % judged)
         chk.cov["text_cases"] = len(tcases)
         chk.cov["text_reads_validated"] = ttot[3]
-        chk.cov["text_rejection_keys"] = {k: len(v) for k, v in sorted(tkeys.items())}
+        chk.cov["text_rejection_keys"] = {k: len(set(t[0] for t in v)) for k, v in sorted(tkeys.items())}
         if ttot[3] < 2 * len(tcases) - 4:
             raise Broken("vacuous text run: %d reads for %d texts" % (ttot[3], len(tcases)))
-        chk.sample({"class": "text case", "text": tcases[len(tcases) // 2]["note"], "events": tby.get(tcases[len(tcases) // 2]["id"])})
+        chk.sample({"class": "text case", "text": tcases[len(tcases) // 2]["note"], "events": parsed(tby, tcases[len(tcases) // 2]["id"])})
         # ---------------- model checking results
         for name, f in futs:
             r = f.result()
@@ -1108,11 +1249,11 @@ def replay(path):
         rc, evs, err = run_driver(build, sc, kind, [c["recipe"] if kind == "rt" else c["textline"]], "replay", timeout=300)
         b, _ = case_events(evs)
         if c["id"] not in b:
-            b[c["id"]] = [{"e": "Begin", "id": c["id"]}]
+            b[c["id"]] = ['{"e":"Begin","id":%d}' % c["id"]]
         p = sc.file("replay.ndjson")
         make_trace(p, [c], b, kind)
         r, rej, summ, consumed = validate(sc, p, timeout=600)
-        for e in b[c["id"]]:
+        for e in parsed(b, c["id"]):
             if e["e"] == "Write":
                 print("writer %-7s -> %s" % (e["w"], "".join(chr(x) for x in e["t"])[:300]))
         print("TLC: consumed=%s summary=%s rejections=%s" % (consumed, summ, rej))
